@@ -319,6 +319,9 @@ pub const SOURCES_BAD: &[&str] = &[
     "f(1 2)\ny = g(3)\n",
     "class :\n    pass\ny = 3\n",
     "x = 1 2\ny = 3 4\nz = 5 6\nu = 7 8\nv = 9 0\nw = 1 2\nt = 3 4\n",
+    // the ROOT of the tree is itself the ERROR node
+    "if x:\n  (",
+    "while x:\n  y = (\n",
     // the only syntax errors are MISSING anonymous tokens (no ERROR node)
     "def f(:\n    pass\n",
     "def f(a,:\n    pass\n",
@@ -447,7 +450,7 @@ pub fn gen(rng: &mut Rng, n: usize) -> Vec<Case> {
         let prog = gen_prog(rng);
         let mut tags = vec![prog.kind.clone()];
         let bad_src = rng.chance(25);
-        let src = if bad_src { if rng.chance(40) { SOURCES_BAD[SOURCES_BAD.len() - 1 - rng.below(2)].to_string() } else { rng.pick(SOURCES_BAD).to_string() } } else { rng.pick(SOURCES_OK).to_string() };
+        let src = if bad_src { if rng.chance(40) { SOURCES_BAD[SOURCES_BAD.len() - 1 - rng.below(4)].to_string() } else { rng.pick(SOURCES_BAD).to_string() } } else { rng.pick(SOURCES_OK).to_string() };
         tags.push(if bad_src { "source:syntax-errors".into() } else { "source:ok".into() });
         // the five switches are enumerated systematically (i mod 32); --output without --json is a clap
         // usage error whatever the rest, so two thirds of those slots get --json as well
